@@ -56,6 +56,7 @@ func NfstimeNow() nfstypes.Nfstime3 {
 }
 
 func (ip *Inode) InitInode(inum common.Inum, kind nfstypes.Ftype3) {
+	verifAccess(ip, "InitInode")
 	util.DPrintf(1, "initInode: inode # %d\n", inum)
 	ip.Inum = inum
 	ip.Kind = kind
@@ -77,6 +78,7 @@ func (ip *Inode) String() string {
 }
 
 func (ip *Inode) MkFattr() nfstypes.Fattr3 {
+	verifAccess(ip, "MkFattr")
 	return nfstypes.Fattr3{
 		Ftype: ip.Kind,
 		Mode:  0777,
@@ -145,6 +147,7 @@ func MaxFileSize() uint64 {
 }
 
 func (ip *Inode) WriteInode(atxn *alloctxn.AllocTxn) {
+	verifAccess(ip, "WriteInode")
 	if ip.Inum >= atxn.Super.NInode() {
 		panic("WriteInode")
 	}
@@ -154,6 +157,7 @@ func (ip *Inode) WriteInode(atxn *alloctxn.AllocTxn) {
 }
 
 func (ip *Inode) FreeInode(atxn *alloctxn.AllocTxn) {
+	verifAccess(ip, "FreeInode")
 	ip.Kind = NF3FREE
 	ip.Gen = ip.Gen + 1
 	ip.WriteInode(atxn)
@@ -165,6 +169,7 @@ func (ip *Inode) FreeInode(atxn *alloctxn.AllocTxn) {
 // transaction, if shrinking involves freeing many blocks.  ShrinkSize
 // tracks shrinking progress, and is initialized with the old size.
 func (ip *Inode) Resize(atxn *alloctxn.AllocTxn, sz uint64) bool {
+	verifAccess(ip, "Resize")
 	var newSz = sz
 	var doshrink = false
 	oldsz := util.RoundUp(ip.Size, disk.BlockSize)
@@ -261,6 +266,7 @@ func (ip *Inode) bmap(atxn *alloctxn.AllocTxn, bn uint64) (common.Bnum, bool) {
 // Returns number of bytes read and eof
 func (ip *Inode) Read(atxn *alloctxn.AllocTxn, offset uint64, bytesToRead uint64) ([]byte,
 	bool) {
+	verifAccess(ip, "Read")
 	var n uint64 = uint64(0)
 
 	if offset >= ip.Size {
@@ -298,6 +304,7 @@ func (ip *Inode) Read(atxn *alloctxn.AllocTxn, offset uint64, bytesToRead uint64
 // Returns number of bytes written and error
 func (ip *Inode) Write(atxn *alloctxn.AllocTxn, offset uint64,
 	count uint64, dataBuf []byte) (uint64, bool) {
+	verifAccess(ip, "Write")
 	var cnt uint64 = uint64(0)
 	var off uint64 = offset
 	var ok bool = true
@@ -350,6 +357,7 @@ func (ip *Inode) Write(atxn *alloctxn.AllocTxn, offset uint64,
 }
 
 func (ip *Inode) DecLink(atxn *alloctxn.AllocTxn) bool {
+	verifAccess(ip, "DecLink")
 	ip.Nlink = ip.Nlink - 1
 	ip.WriteInode(atxn)
 	return ip.Nlink == 0
